@@ -29,6 +29,7 @@ type LetDef struct {
 }
 
 type LoopSpec struct {
+	Steps      []Clause // checked at every back edge; may use (head X) for values at the start of the iteration
 	Invariants []Clause
 	Decreases  *Clause
 }
@@ -61,6 +62,13 @@ type Contract struct {
 	Line     int
 	Pure     bool // interface method: observer, appends no event
 	Timeout  int  // per-obligation timeout override (seconds)
+	Unroll   map[int]int // loop ordinal -> unrolling bound (complete: an unwinding obligation closes it)
+	SplitExpr *Sexp   // case split: one VC per listed value of this expression, plus the residual case
+	SplitVals []*Sexp
+	MoreSplits []splitSpec // further splits (cartesian product)
+	CaseTag  string // set on the per-case copies
+	BindName string // per-case copy of a split on a plain parameter: the parameter is replaced by the value
+	BindVal  *Sexp
 	Notes    []string
 }
 
@@ -73,6 +81,9 @@ type ContractSet struct {
 	// assumption scan
 	Scan []string
 }
+
+// currentTier is set before the contracts are loaded (tier-dependent case splits).
+var currentTier = "quick"
 
 var labelRe = regexp.MustCompile(`^\[([^\]]*)\]\s*`)
 
@@ -178,14 +189,17 @@ func (cs *ContractSet) loadFile(path, repo string) error {
 			fileUses = append(fileUses, strings.Fields(rest)...)
 			fileContracts = append(fileContracts, nil)
 			continue
-		case "contract", "iface":
+		case "contract", "iface", "functype":
 			name := strings.TrimSpace(rest)
+			if kw == "functype" {
+				name = "functype:" + name
+			}
 			c = &Contract{Pkg: pkgPath, Func: name, Mode: "bits", Loops: map[int]*LoopSpec{}, File: path, Line: l.line}
 			fileContracts = append(fileContracts, c)
 			cs.ByFunc[c.Key()] = append(cs.ByFunc[c.Key()], c)
 			continue
 		}
-		if c == nil && kw == "let" {
+		if kw == "filelet" || c == nil && kw == "let" {
 			name, body := splitWord(strings.TrimSpace(rest))
 			e, err := parseSexp(body)
 			if err != nil {
@@ -225,6 +239,40 @@ func (cs *ContractSet) loadFile(path, repo string) error {
 			return cl, nil
 		}
 		switch kw {
+		case "unroll":
+			var k, u int
+			if n, _ := fmt.Sscanf(rest, "%d %d", &k, &u); n != 2 {
+				return fail("expected: unroll <loop ordinal> <bound>")
+			}
+			if c.Unroll == nil {
+				c.Unroll = map[int]int{}
+			}
+			c.Unroll[k] = u
+		case "split":
+			// split [thorough] <expr> in <v1> <v2> ...
+			if strings.HasPrefix(rest, "thorough ") {
+				rest = strings.TrimSpace(strings.TrimPrefix(rest, "thorough "))
+				if currentTier != "thorough" {
+					continue
+				}
+			}
+			idx := strings.Index(rest, " in ")
+			if idx < 0 {
+				return fail("expected: split <expr> in <v1> <v2> ...")
+			}
+			e, err := parseSexp(strings.TrimSpace(rest[:idx]))
+			if err != nil {
+				return fail("%v", err)
+			}
+			vals, err := parseSexps(rest[idx+4:])
+			if err != nil {
+				return fail("%v", err)
+			}
+			if c.SplitExpr == nil {
+				c.SplitExpr, c.SplitVals = e, vals
+			} else {
+				c.MoreSplits = append(c.MoreSplits, splitSpec{e, vals})
+			}
 		case "needs":
 			c.Uses = append(c.Uses, strings.Fields(rest)...)
 		case "mode":
@@ -271,7 +319,7 @@ func (cs *ContractSet) loadFile(path, repo string) error {
 				return fail("%v", err)
 			}
 			c.Lets = append(c.Lets, LetDef{Name: name, Expr: e})
-		case "invariant", "decreases":
+		case "invariant", "decreases", "step":
 			ks, body := splitWord(strings.TrimSpace(rest))
 			k, err := strconv.Atoi(ks)
 			if err != nil {
@@ -288,6 +336,8 @@ func (cs *ContractSet) loadFile(path, repo string) error {
 			}
 			if kw == "invariant" {
 				ls.Invariants = append(ls.Invariants, cl)
+			} else if kw == "step" {
+				ls.Steps = append(ls.Steps, cl)
 			} else {
 				ls.Decreases = &cl
 			}
@@ -391,4 +441,49 @@ func hasPropLabel(labels []string, prop string) bool {
 		}
 	}
 	return false
+}
+
+type splitSpec struct {
+	expr *Sexp
+	vals []*Sexp
+}
+
+// cases returns the per-case copies of a contract with a split clause (the contract itself otherwise).
+func (c *Contract) cases() []*Contract {
+	if c.SplitExpr == nil {
+		return []*Contract{c}
+	}
+	var out []*Contract
+	var nots []*Sexp
+	for _, v := range c.SplitVals {
+		cp := *c
+		eq := &Sexp{IsL: true, List: []*Sexp{{Atom: "="}, c.SplitExpr, v}}
+		cp.Requires = append(append([]Clause{}, c.Requires...), Clause{Labels: []string{"case"}, Expr: eq, Text: eq.String(), File: c.File, Line: c.Line})
+		cp.CaseTag = "[" + c.SplitExpr.String() + "=" + v.String() + "]"
+		if !c.SplitExpr.IsL {
+			cp.BindName, cp.BindVal = c.SplitExpr.Atom, v
+		}
+		cp.SplitExpr = nil
+		if len(c.MoreSplits) > 0 {
+			cp.SplitExpr, cp.SplitVals, cp.MoreSplits = c.MoreSplits[0].expr, c.MoreSplits[0].vals, c.MoreSplits[1:]
+			for _, sub := range cp.cases() {
+				sub.CaseTag = "[" + c.SplitExpr.String() + "=" + v.String() + "]" + strings.TrimPrefix(sub.CaseTag, cp.CaseTag)
+				if sub.BindName == "" {
+					sub.BindName, sub.BindVal = cp.BindName, cp.BindVal
+				}
+				out = append(out, sub)
+			}
+		} else {
+			out = append(out, &cp)
+		}
+		nots = append(nots, &Sexp{IsL: true, List: []*Sexp{{Atom: "not"}, eq}})
+	}
+	cp := *c
+	rest := &Sexp{IsL: true, List: append([]*Sexp{{Atom: "and"}}, nots...)}
+	cp.Requires = append(append([]Clause{}, c.Requires...), Clause{Labels: []string{"case"}, Expr: rest, Text: rest.String(), File: c.File, Line: c.Line})
+	cp.CaseTag = "[" + c.SplitExpr.String() + "=other]"
+	cp.SplitExpr = nil
+	cp.MoreSplits = nil
+	out = append(out, &cp)
+	return out
 }
